@@ -142,6 +142,15 @@ type ByzPeer struct {
 	served   map[string]int // honest payloads delivered
 	offered  map[types.BlockID]bool
 	relayErr []string
+	sameIDAt time.Time // when the first same-id invalid body went out
+}
+
+// SameIDAt returns when the first block with another body under its id was
+// handed over (zero if never).
+func (b *ByzPeer) SameIDAt() time.Time {
+	b.mu.Lock()
+	defer b.mu.Unlock()
+	return b.sameIDAt
 }
 
 // NewByzPeer creates the peer (not yet listening).
@@ -363,6 +372,11 @@ func (b *ByzPeer) Handle(id types.Specifier, s *gateway.Stream) {
 				// another body under an unchanged (v2) id: passes every id check,
 				// core rejects the block
 				b.count(b.applied, "blocks:same-id-invalid-body")
+				b.mu.Lock()
+				if b.sameIDAt.IsZero() {
+					b.sameIDAt = time.Now()
+				}
+				b.mu.Unlock()
 			}
 		} else {
 			b.noteOffered(blocks)
